@@ -495,7 +495,19 @@ func HarnessRollback() {
 	// the old root / freelist page before it allocates): the first step is a Free.
 	zz.Reach("step-free")
 	free1()
+	// reload=0: a failed commit (Tx.rollback reloads the list from the file afterwards);
+	// reload=2: a user Rollback (Tx.nonPhysicalRollback): the transaction only freed pages
+	// (DeleteBucket frees at once, allocation happens in Commit only) and nothing is reloaded.
+	noReload := zz.Param("reload", 0) == 2
 	for i := 1; i < steps; i++ {
+		if noReload {
+			if nfreed >= len(s.Akeys) {
+				break
+			}
+			zz.Reach("step-free")
+			free1()
+			continue
+		}
 		if nfreed >= len(s.Akeys) || zz.Choose(2) == 0 {
 			zz.Reach("step-allocate")
 			n := 1 + zz.Choose(2)
@@ -506,7 +518,9 @@ func HarnessRollback() {
 		}
 	}
 	s.fl.Rollback(t)
-	if sync {
+	if noReload {
+		zz.Reach("user-rollback")
+	} else if sync {
 		s.fl.Reload(pg)
 	} else {
 		s.fl.NoSyncReload(allFree)
